@@ -100,8 +100,9 @@ class Image:
     """An image class: its files and what the generator built it to do at each stage."""
 
     def __init__(self, name, files, load=True, render=True, images=True, schema=True, constraints=(),
-                 components=None, mname="demo", scopes=("Namespaced", "Cluster")):
+                 components=None, mname="demo", scopes=("Namespaced", "Cluster"), large=False):
         self.name, self.files = name, files
+        self.large = large  # a phase exceeds the ObjectSlice chunk limit: its objects live in ObjectSlices
         self.load, self.render, self.images, self.schema = load, render, images, schema
         self.scopes = scopes  # installing in another scope is rejected by the deployer's scope validator
         self.constraints = list(constraints)
@@ -154,6 +155,25 @@ def image_pool():
     pool.append(Image("dup-crossphase", {"manifest.yaml": two, "a.yaml": dup, "b.yaml": dup_later, "cm.yaml.gotmpl": configmap("d3")}, render=False))
     pool.append(Image("dup-tmpl", {"manifest.yaml": two, "a.yaml": dup, "b.yaml.gotmpl": dup_later, "cm.yaml.gotmpl": configmap("d4")}, render=False))
     pool.append(Image("nodup", {"manifest.yaml": two, "a.yaml": dup, "b.yaml": dup_later.replace("cm-dup", "cm-other"), "cm.yaml.gotmpl": configmap("d5")}))
+    # objects without kind, without apiVersion, without both - as first, middle and last object of a file
+    def obj(name, head):
+        return head + "metadata:\n  name: %s\n  annotations:\n    package-operator.run/phase: deploy\ndata:\n  k: v\n" % name
+    full = "apiVersion: v1\nkind: ConfigMap\n"
+    for tag, head in (("nokind", "apiVersion: v1\n"), ("noapiversion", "kind: ConfigMap\n"), ("nogvk", "")):
+        for pos in range(3):
+            docs = [obj("o%d" % i, head if i == pos else full) for i in range(3)]
+            pool.append(Image("%s-%d" % (tag, pos), {"manifest.yaml": manifest("demo"), "objs.yaml": "---\n".join(docs),
+                                                      "cm.yaml.gotmpl": configmap("%s%d" % (tag, pos))}, render=False))
+        pool.append(Image("%s-only" % tag, {"manifest.yaml": manifest("demo"), "o.yaml": obj("o", head)}, render=False))
+    # large packages: the phase `deploy` exceeds the 1 MiB chunk limit of the default (binpack) chunker
+    def big(name, kib):
+        return ("apiVersion: v1\nkind: ConfigMap\nmetadata:\n  name: %s\n  annotations:\n    package-operator.run/phase: deploy\n"
+                "data:\n  payload: %s\n" % (name, "x" * (kib * 1024)))
+    for lname, sizes in (("large", [400] * 5), ("large2", [300, 300, 300, 600, 100]), ("large3", [1100, 10, 1100])):
+        files = {"manifest.yaml": manifest("demo", phases=("deploy", "later")), "cm.yaml.gotmpl": configmap(lname, phase="later")}
+        for i, kib in enumerate(sizes):
+            files["big/%02d.yaml" % i] = big("%s-%d" % (lname, i), kib)
+        pool.append(Image(lname, files, large=True))
     # unusable lock file image reference
     pool.append(Image("badlock", single("badlock", imgs=[("app", "Not A Reference!!")]), images=False))
     # constraints
@@ -208,7 +228,9 @@ def constraint_lists(maxlen, r=None, sample=None):
     return out
 VALID = ["good", "good2", "noschema", "locked", "multi", "nodup"]
 INVALID = ["nomanifest", "badyaml", "badkind", "noanno", "missingphase", "clusteronly", "nsonly", "dupphase", "badlock",
-           "dup-samefile", "dup-crossfile", "dup-crossphase", "dup-tmpl"]
+           "dup-samefile", "dup-crossfile", "dup-crossphase", "dup-tmpl"] + \
+          ["%s-%s" % (t, p) for t in ("nokind", "noapiversion", "nogvk") for p in (0, 1, 2, "only")]
+LARGE = ["large", "large2", "large3"]
 CONS = ["c-platform", "c-kube", "c-kube-lo", "c-ocp", "c-both", "c-unique", "c-unique-ocp", "c-badrange", "c-platform-noanno"]
 
 # no {}: the recording server does not see an edit between an absent and an empty config as a spec change
@@ -426,6 +448,23 @@ def constraint_list_sweep(r, tier):
     return out
 
 
+def large_sweep():
+    """Packages whose phase crosses the chunk limit: first deployment, unchanged second pass, edits between large
+    packages (slices replaced and garbage collected), to and from a small package, config edit; both flavours.  No
+    faults: requests on ObjectSlices are outside the model's vocabulary and are dropped from the trace."""
+    out = []
+    e0 = ENVS[0]
+    for cluster in (False, True):
+        for name in LARGE:
+            out.append(scenario(e0, spec(name, {"x": "a"}), [PASS, PASS], cluster=cluster))
+        out.append(scenario(e0, spec("large", {"x": "a"}), [PASS, edit(spec("large2", {"x": "a"})), PASS, PASS,
+                                                           edit(spec("good", {"x": "a"})), PASS, edit(spec("large3", {"x": "b"})), PASS, PASS],
+                            cluster=cluster))
+    out.append(scenario(e0, spec("good", {"x": "a"}), [PASS, edit(spec("large", {"x": "a"})), PASS, edit(spec("large", {"x": "b"})), PASS, PASS]))
+    out.append(scenario(e0, spec("large2", None), [PULLFAIL, PASS, edit(spec("large2", None, paused=True)), PASS, edit(spec("large2", None)), PASS]))
+    return out
+
+
 def faults_after_pull():
     """An err / lost API fault at every request of a first deployment and of an update, both flavours, followed by
     clean passes: whatever the pass persisted must fit what it stored."""
@@ -578,7 +617,8 @@ def random_scenario(r):
 
 def gen(seed, tier):
     r = vlib.rng(seed, "C16")
-    fixed = [WITNESS] + classes() + unique_sweep() + faults_after_pull() + touch_sweep() + constraint_list_sweep(r, tier)
+    fixed = ([WITNESS] + classes() + unique_sweep() + faults_after_pull() + touch_sweep() + constraint_list_sweep(r, tier)
+             + large_sweep())
     rest = corpus()
     if tier == "quick":
         out = fixed + r.sample(rest, min(len(rest), 60))
@@ -673,12 +713,16 @@ def build_case(sc, obs):
             if p["ref_err"] == "":
                 dtable[t[:3]] = names.digest(p["ref_tmpl"])
             # observation
-            evs = []
+            evs, nslice = [], 0
             for e in p["events"]:
                 if e["t"] == "pull":
                     evs.append("EPull %d" % names._id(names.img, e["image"]))
                 elif e["t"] == "deploy":
                     evs.append("EDeploy")
+                elif e["kind"] in ("ObjectSlice", "ClusterObjectSlice") and e["verb"] in ("create", "get", "delete", "update"):
+                    # writes and reads of single ObjectSlices (chunking of a large phase, slice garbage collection) are outside
+                    # the model's vocabulary: dropped from the trace; the template is judged with the slices inlined
+                    nslice += 1
                 else:
                     k = REQ.get((e["verb"], e["kind"]))
                     r = ROUT.get(e.get("err", ""))
@@ -698,8 +742,8 @@ def build_case(sc, obs):
                 raise Unrepresentable("unpackedHash is the hash of no spec the Package ever had")
             od = None
             if p["od"] is not None:
-                if p["od"]["slices"]:
-                    raise Unrepresentable("phase was sliced")
+                if p["od"]["slices"] and not any(POOL[n].large for n in sc["images"] if n in POOL):
+                    raise Unrepresentable("a phase of a small package was sliced")
                 tm = "None" if p["od"]["empty"] else "(Some %d)" % names.digest(p["od"]["tmpl"])
                 od = "(Build_od %s %s %d)" % (tm, cB(p["od"]["paused"]), p["od"]["gen"])
             obss.append("Build_obs %s %s %s %s %s %s %d" % (
@@ -744,10 +788,12 @@ def check(run, tier, seed, replay=None):
         "stage outcomes (pull, load, constraints, config admission, image references, render+validation) are oracles: "
         "what the generated package was built to do, cross-checked against a reference render through the real "
         "loader / admission / renderer per pass",
-        "packages are small: no ObjectSlices (checked per case); the ObjectDeployment controller does not run, so the "
+        "small packages produce no ObjectSlices (checked per case); the ObjectDeployment controller does not run, so the "
         "ObjectDeployment has no status conditions; the Package is never deleted; no HyperShift environment",
         "template identity = sha256 of the canonical JSON of spec.template.spec, compared with the reference render",
         "client and uncachedClient are the same recording API server (no stale cache)",
+        "large packages (a phase above the chunk limit): reads and writes of single ObjectSlices are dropped from the compared "
+        "request trace, the template is compared with its ObjectSlices inlined in order; these scenarios carry no API faults",
         "uniqueInScope is judged by the property over the (Cluster)Packages that carry the manifest's package label in the scope "
         "of the Package (its namespace / the cluster), the Package itself included if labelled: 0 = cannot be evaluated, 1 = met, "
         ">= 2 = unmet; all unique-constrained manifests of a scenario are named `demo`",
@@ -850,6 +896,12 @@ def check(run, tier, seed, replay=None):
             run.violation("corr:C16/package model and implementation differ",
                           {"correspondence": "C16Corr.agree",
                            "scenario": sc, "impl": obs, "oracles": [o for _, o, _ in info]}, False)
+    if not replay:
+        # additive: the real chunkers against the chunk laws (machinery and theorems of C14, props/C14.v): the slices
+        # the deployment reconciler writes for a large phase are lossless and in order
+        import C14
+        nchunk, _ = C14.chunk_stage(run, C14.gen(seed, "quick"))
+        run.cov["chunker_cases_C14"] = nchunk
     run.cov["passes"] = npass
     run.cov["passes_by_intended_stage"] = stages
     run.cov["passes_with_conflict"] = nconf
